@@ -27,6 +27,7 @@ type IntState struct {
 	// PushFree is set when the transition lowered SP by two without the model
 	// constraining the stored word (mode 0: C07's subject).
 	PushFree bool
+	blockAlt bool
 	Consumed bool // the pending request was consumed by this Step
 }
 
@@ -103,6 +104,22 @@ func (s *IntState) clone() *IntState {
 // with request req in the slot (nil: none). At most two states: the fork is
 // the "one instruction after the enabling EI" clause.
 func (s *IntState) Next(req *Req) []*IntState {
+	out := s.next0(req)
+	// a repeating search (CPIR / CPDR) either repeats or is finished: the model does not follow BC, HL and
+	// A, so a Step that executed one has two candidates
+	n := len(out)
+	for i := 0; i < n; i++ {
+		if out[i].blockAlt {
+			out[i].blockAlt = false
+			m := out[i].clone()
+			m.PC += 2
+			out = append(out, m)
+		}
+	}
+	return out
+}
+
+func (s *IntState) next0(req *Req) []*IntState {
 	if req != nil && req.NMI {
 		n := s.clone()
 		n.JustEI = false
@@ -252,6 +269,8 @@ func (s *IntState) exec() {
 			s.PC += 2
 			s.PC = s.pop()
 			s.NRETI++
+		case 0xb1, 0xb9:
+			s.blockAlt = true // PC stays (repeats); Next adds the finished alternative
 		default:
 			s.Last = KUnknown
 		}
